@@ -2,7 +2,8 @@
 
 proof:          lean/MPilot/Props/C05.lean
 correspondence: every data command on shapes of rank 1-3 including length-1 axes
-oracles:        result.shape == input shape; a common permutation / reshape of the input cells permutes / reshapes the result
+oracles:        result.shape == input shape; a common permutation / reshape of the input cells permutes / reshapes the result;
+                the same for the statistic-driven commands on fields of small spread about a large mean (float32 / float64, 600 .. 10^6 cells)
 """
 import numpy
 
@@ -43,6 +44,64 @@ def gen(ctx, cmds, n):
     return cases
 
 
+STAT_DRIVEN = [("NormalizeZScore", {"TrueThresholdZScore": 2, "FalseThresholdZScore": -2, "StartVal": 0, "EndVal": 1}), ("NormalizeZScore", {"TrueThresholdZScore": -1, "FalseThresholdZScore": 1.5, "StartVal": -3, "EndVal": 7}),
+               ("NormalizeCurveZScore", {"ZScoreValues": [-2, 0, 2], "NormalValues": [0, 0.6, 1]}), ("CvtToFuzzyZScore", {"TrueThresholdZScore": 1.5, "FalseThresholdZScore": -1}),
+               ("CvtToFuzzyCurveZScore", {"ZScoreValues": [-2, 0.5, 2], "FuzzyValues": [-1, 0.2, 1]}), ("NormalizeMeanToMid", {"IgnoreZeros": False, "NormalValues": [0, 0.25, 0.5, 0.75, 1]}),
+               ("CvtToFuzzyMeanToMid", {"IgnoreZeros": True, "FuzzyValues": [-1, -0.5, 0, 0.5, 1]}), ("Normalize", {"StartVal": 0, "EndVal": 1}), ("CvtToFuzzy", {})]
+
+
+def offset_fields(ctx):
+    """the commands whose mapping is driven by a statistic of the whole field (mean, standard deviation, minimum, maximum) on fields whose spread is small next
+    to their magnitude - single-precision grids such as elevations 2000 +- 5, double-precision ones with |mean| / std of 10^6 and more, 600 to 10^6 cells, rank 1-3,
+    with and without missing cells: the statistics are symmetric functions of the cells, so a permuted (random, reversed, sorted) or reshaped field gives the permuted /
+    reshaped result.  A mean can be no better than the data: the cells are given to eps * |x|, which is eps * |mean| / std in units of the standard deviation - the
+    tolerance is 32 times that (the pinned code stays below 3 times, measured over this ladder; a mean / deviation accumulated in one pass, E[x^2] - mean^2, is off
+    by that figure times |mean| / std once more: thousands of times), missing cells and shapes exactly"""
+    rng = eems._rng2(ctx)
+    seed = rng.randrange(2 ** 31)
+    nr = numpy.random.RandomState(seed)
+    kinds = [(numpy.float32, 2000, 5), (numpy.float32, 300, 0.5), (numpy.float32, -5000, 3), (numpy.float32, 1e4, 20), (numpy.float64, 1e7, 5), (numpy.float64, -3e8, 20), (numpy.float64, 1e9, 100)]
+    shapes = [(600,), (20, 30), (4, 10, 15), (1, 2500), (150, 200), (3, 100, 120)]
+    fields = [(k, shapes[(i + j) % len(shapes)], (i + j) % 2 == 1) for i, k in enumerate(kinds) for j in range(3)]
+    fields += [(kinds[0], (1000, 1000), False), (kinds[4], (700, 600), True)] + ([(kinds[3], (2000, 1500), True)] if ctx.thorough else [])
+    for k_, ((dt, base, spread), shape, missing) in enumerate(fields):
+        seed, nr = seed + 1, numpy.random.RandomState(seed + 1)       # (one generator per field: what the replay names rebuilds the field)
+        f = numpy.ma.array((base + spread * nr.randn(*shape)).astype(dt), mask=(nr.rand(*shape) < 0.1) if missing else numpy.ma.nomask)
+        n = f.size
+        vis = f.compressed().astype(float)
+        tol = 32 * float(numpy.finfo(dt).eps) * (1 + abs(vis.mean()) / vis.std())
+        fd, fm = numpy.ma.getdata(f).ravel(), numpy.ma.getmaskarray(f).ravel()
+        twins = [("a random permutation of the cells", nr.permutation(n), shape), ("the cells in reverse order", numpy.arange(n)[::-1], shape), ("the cells sorted by value", numpy.argsort(fd, kind="stable"), shape),
+                 ("the grid reshaped", numpy.arange(n), rng.choice([s for s in ((n,), (1, n), (n // 2, 2), (5, n // 5), (2, 1, n // 2)) if s != shape]))]
+        for cmd, params in (STAT_DRIVEN if n <= 100000 else STAT_DRIVEN[:1] + STAT_DRIVEN[2:5]):
+            st, ref = eems.execute_on(cmd, params, [f.copy()])
+            desc = {"cmd": cmd, "params": {k: repr(v) for k, v in params.items()}, "field": "(%g + %g * nr.randn(*%r)).astype(%s)%s, nr = numpy.random.RandomState(%d)" % (base, spread, shape, numpy.dtype(dt).name, ", missing where nr.rand(*shape) < 0.1" if missing else "", seed),
+                    "first_cells": repr(fd[:6].tolist()), "tolerance": tol}
+            ctx.case("offset-field %s %r %s %r %r %s" % (cmd, sorted(params.items()), numpy.dtype(dt).name, (base, spread), shape, missing), sample=None)
+            if st != "ok" or not isinstance(ref, numpy.ndarray) or ref.shape != tuple(shape):
+                ctx.fail("%s on a %s field of shape %r (values %g +- %g): %s" % (cmd, numpy.dtype(dt).name, shape, base, spread, "%s: %s" % (type(ref).__name__, str(ref)[:80]) if st != "ok" else "result of shape %r" % (getattr(ref, "shape", None),)), desc)
+                continue
+            rd, rm = numpy.ma.getdata(ref).ravel().astype(float), numpy.ma.getmaskarray(ref).ravel()
+            for what, perm, new in twins:
+                st, r = eems.execute_on(cmd, params, [numpy.ma.array(fd[perm].reshape(new), mask=fm[perm].reshape(new))])
+                ctx.count("c05_offset_field_twins")
+                if st != "ok" or not isinstance(r, numpy.ndarray) or r.shape != tuple(new):
+                    ctx.fail("%s on a %s field of shape %r (values %g +- %g), %s %r: %s" % (cmd, numpy.dtype(dt).name, shape, base, spread, what, new, "%s: %s" % (type(r).__name__, str(r)[:80]) if st != "ok" else "result of shape %r" % (getattr(r, "shape", None),)), dict(desc, twin=what))
+                    break
+                gd, gm = numpy.ma.getdata(r).ravel().astype(float), numpy.ma.getmaskarray(r).ravel()
+                if not numpy.array_equal(gm, rm[perm]):
+                    ctx.fail("%s on a %s field of shape %r (values %g +- %g), %s: other cells are missing in the result" % (cmd, numpy.dtype(dt).name, shape, base, spread, what), dict(desc, twin=what))
+                    break
+                with numpy.errstate(all="ignore"):
+                    bad = ~(numpy.abs(gd - rd[perm]) <= tol * numpy.maximum(1.0, numpy.abs(rd[perm]))) & ~gm
+                if bad.any():
+                    i = int(numpy.flatnonzero(bad)[numpy.argmax(numpy.abs(gd - rd[perm])[bad])])
+                    ctx.fail("%s on a %s field of shape %r (values %g +- %g, |mean| / std = %.3g), %s: the cell holding %r is mapped to %r, in the original arrangement to %r (%d of %d cells differ by more than %.3g; "
+                             "largest difference %.3g) - the result depends on where the cells are" % (cmd, numpy.dtype(dt).name, shape, base, spread, abs(vis.mean()) / vis.std(), what, fd[perm][i].item(), gd[i], rd[perm][i],
+                                                                                                     int(bad.sum()), n, tol, float(numpy.abs(gd - rd[perm])[bad].max())), dict(desc, twin=what))
+                    break
+
+
 def run(ctx):
     ctx.check_proofs(["MPilot.Props.C05", "MPilot.Props.C05Tile"])
     model = common.Model()
@@ -57,6 +116,7 @@ def run(ctx):
             ctx.case("large " + c.line() + " x%d" % k, sample=None)
             if o["status"] == "ok" and o["vis"][3] is not None:
                 eems.tile_twin(ctx, c, o, k)
+    offset_fields(ctx)
     # long category tables and curves (40 .. 1000 entries, unsorted) on vectors and on grids of rank 2 and 3: the shape is kept whatever the length of a list
     eems.run_stream(ctx, model, eems.long_table_cases(eems._rng2(ctx)), "exec:long-tables:shapes", on_result=orc)
     numeric.focus_search(ctx, model, lambda cmds, f: gen(ctx, cmds, n * f), orc)
